@@ -93,10 +93,10 @@ def clean_stream_obligations(eng, cfg):
     st.locals = {"self": rd, "data_chunk": SBytes(G, cn, gt0)}
     st.ghost["delivered"] = SInt(z3.IntVal(0))
     def hook(st_, lst, item, ctx_, node_):
-        ok = isinstance(item, Ref) and st_.getf(rd, "_frame") == item
+        ok = isinstance(item, Ref) and item == st_.ghost.get("completed_frame") and all(item != x for x in st_.ghost.get("appended", ()))
         ctx_.oblige(st_, "post:returned object is the frame just completed", z3.BoolVal(ok), node_)
         if not ok: return
-        v = reader_view(st_, rd); d = st_.getf(item, "_frame_data"); e = v["gp"] - 1
+        v = reader_view(st_, rd); d = st_.getf(item, "_frame_data"); e = st_.ghost["completed_at"] - 1
         ctx_.oblige(st_, "post:a frame is returned only at a closing flag of the stream", is_cf(e), node_)
         ctx_.oblige(st_, "post:the returned frame is the frame that was sent (octets and length of the ideal frame of the segment it closes)", z3.And(d.arr == WA(e), d.n == QN(e)), node_)
         ctx_.oblige(st_, "post:the returned frame is valid (length field and FCS; is_valid by its contract, C01)", S.valid_frame(d.arr, d.n), node_)
@@ -107,7 +107,7 @@ def clean_stream_obligations(eng, cfg):
     def havoc(st_h, e):
         s2 = st_h.fork(); tag = f"__l{next(_calls)}"
         rd2, buf2 = mk_reader(s2, cfg, True, tag=tag, eng=e)
-        s2.heap[rd.oid] = (s2.heap[rd2.oid][0], s2.heap[rd2.oid][1]); del s2.heap[rd2.oid]
+        adopt(s2, rd, rd2)
         s2.ghost["appended"] = (); s2.ghost["delivered"] = SInt(fresh("delivered", I))
         gp = reader_view(s2, rd)["gp"]
         v2 = reader_view(s2, rd)
@@ -175,10 +175,10 @@ def new_reader_obligations(eng, cfg):
     st.locals = {"self": rd, "data_chunk": SBytes(G, cn, gt0)}
     st.ghost["delivered"] = SInt(z3.IntVal(0))
     def hook(st_, lst, item, ctx_, node_):
-        ok = isinstance(item, Ref) and st_.getf(rd, "_frame") == item
+        ok = isinstance(item, Ref) and item == st_.ghost.get("completed_frame") and all(item != x for x in st_.ghost.get("appended", ()))
         ctx_.oblige(st_, "post:returned object is the frame just completed", z3.BoolVal(ok), node_)
         if not ok: return
-        v = reader_view(st_, rd); d = st_.getf(item, "_frame_data"); e = v["gp"] - 1
+        v = reader_view(st_, rd); d = st_.getf(item, "_frame_data"); e = st_.ghost["completed_at"] - 1
         ctx_.oblige(st_, "post:a frame is returned only at a closing flag of the stream", is_cf(e), node_)
         ctx_.oblige(st_, "post:the returned frame is the frame that was sent (octets and length of the ideal frame of the segment it closes)", z3.And(d.arr == WA(e), d.n == QN(e)), node_)
         ctx_.oblige(st_, "post:the returned frame is valid (length field and FCS; is_valid by its contract, C01)", S.valid_frame(d.arr, d.n), node_)
@@ -191,7 +191,7 @@ def new_reader_obligations(eng, cfg):
         for shape in (True, False):
             s2 = st_h.fork(); tag = f"__l{next(_calls)}"
             rd2, buf2 = mk_reader(s2, cfg, shape, tag=tag, eng=e)
-            s2.heap[rd.oid] = (s2.heap[rd2.oid][0], s2.heap[rd2.oid][1]); del s2.heap[rd2.oid]
+            adopt(s2, rd, rd2)
             s2.ghost["appended"] = (); s2.ghost["delivered"] = SInt(fresh("delivered", I))
             v2 = reader_view(s2, rd); gp = v2["gp"]
             if shape:
